@@ -53,6 +53,7 @@ pub enum Fault {
     AddrInUse,
     Rlimit,
     IdChange,
+    WriteFail,
 }
 
 #[derive(Debug, Clone)]
@@ -163,6 +164,8 @@ pub struct Conn {
     pub reader_waker: Option<Waker>,
     pub writer_waker: Option<Waker>,
     pub write_blocked_until: u64,
+    /// Local writes fail (e.g. ETIMEDOUT) while reads just stay pending.
+    pub fail_writes: bool,
 
     pub cql: CqlConnState,
 }
@@ -715,6 +718,10 @@ impl AsyncWrite for SimStream {
         if w.conns[conn].cli_rst {
             return Poll::Ready(Err(io::Error::from(io::ErrorKind::ConnectionReset)));
         }
+        if w.conns[conn].fail_writes {
+            w.fault(Fault::WriteFail);
+            return Poll::Ready(Err(io::Error::from(io::ErrorKind::TimedOut)));
+        }
         if w.conns[conn].cli_fin && w.conns[conn].srv_closed {
             // Peer closed; a real kernel answers the next write with RST -> EPIPE.
             return Poll::Ready(Err(io::Error::from(io::ErrorKind::BrokenPipe)));
@@ -892,6 +899,7 @@ async fn connect(
                 reader_waker: None,
                 writer_waker: None,
                 write_blocked_until: 0,
+                fail_writes: false,
                 cql: CqlConnState::default(),
             });
             w.log(&format!("accepted conn={id} node={node} shard={shard:?}"));
